@@ -22,6 +22,7 @@
 import IgrisModel.C19.Lemmas
 import IgrisModel.C19.Lemmas2
 import IgrisModel.C19.LemmasPtr
+import IgrisModel.C19.Lemmas3
 namespace Igris.C19
 open Igris.Proto
 
@@ -955,5 +956,114 @@ theorem creaderP_loop_ends (mem : Str) : ∃ l, creaderAllP mem (mem.length + 2)
 unterminated last line (`creader 6162`) -/
 theorem creaderReadlineOrigP_overread_witness :
     creaderReadlineOrigP [0x61#8, 0x62#8] 0 = .oob 2 := by decide
+
+
+/-! ## argvc_internal_split_n and the terminator (finding C19-argvn-nul-not-terminator)
+
+argvc.h calls `_n` the "safe variant of argvc_internal_split that also checks
+the length"; its source has the test `*data == '\0'` → `return argc`.  That
+test is dead: `strchr(ws, 0)` is not NULL, so a NUL is skipped as white space
+and parsing goes on behind it.  `argvSplitN_spec` (above) is the EXACT
+behaviour for all inputs (NUL counts as a separator).
+
+  FULL STATEMENT (false on the tree, see `argvSplitN_nul_witness`):
+     ∀ data argcmax, ∃ r, argvSplitN data argcmax = some r ∧
+        r.argv.map (cstrAtN r.mem) = (runs isWsArgv (data.takeWhile (· != NUL))).take argcmax
+     — "tokenise on white space", the line ending at its terminator as in argvc_internal_split.
+  Proved part: buffers without NUL. -/
+theorem argvSplitN_ws_partial (data : Str) (argcmax : Nat) (hn : NUL ∉ data) :
+    ∃ r, argvSplitN data argcmax = some r
+      ∧ r.argc = r.argv.length ∧ r.argc ≤ argcmax
+      ∧ r.argv.map (cstrAtN r.mem) = (runs isWsArgv data).take argcmax
+      ∧ r.mem.length = data.length := by
+  obtain ⟨r, h1, h2, h3, h4, h5⟩ := argvSplitN_spec data argcmax
+  refine ⟨r, h1, h2, h3, ?_, h5⟩
+  rw [h4]
+  congr 1
+  apply runs_congr
+  intro c hc
+  have : c ≠ NUL := fun e => hn (e ▸ hc)
+  simp [this]
+
+/-- on a NUL-free text the two splitters produce the same argument strings
+(`_n` on the bare text, the terminated one on the text with its terminator) -/
+theorem argvSplitN_eq_terminated_partial (text junk : Str) (argcmax : Nat) (hn : NUL ∉ text) :
+    ∃ r rz, argvSplitN text argcmax = some r ∧ argvSplit (text ++ NUL :: junk) argcmax = some rz
+      ∧ some (r.argv.map (cstrAtN r.mem)) = argStrings rz.mem rz.argv := by
+  obtain ⟨r, h1, _, _, h4, _⟩ := argvSplitN_ws_partial text argcmax hn
+  obtain ⟨rz, g1, _, _, g4, _⟩ := argvSplit_spec text junk argcmax hn
+  exact ⟨r, rz, h1, g1, by rw [h4, g4]⟩
+
+example : NUL ∉ ([0x61#8, SP, 0x62#8] : Str) := by decide
+
+/-- "a\0j": `_n` delivers two arguments `a`, `j`; `argvc_internal_split` on the
+same terminated line delivers `a`; a pure white-space tokenisation would give
+the single run `a\0j` -/
+theorem argvSplitN_nul_witness :
+    (argvSplitN [0x61#8, NUL, 0x6a#8] 10).map (fun r => r.argv.map (cstrAtN r.mem)) = some [[0x61#8], [0x6a#8]]
+    ∧ (argvSplit [0x61#8, NUL, 0x6a#8, NUL] 10).bind (fun r => argStrings r.mem r.argv) = some [[0x61#8]]
+    ∧ (runs isWsArgv [0x61#8, NUL, 0x6a#8]).take 10 = [[0x61#8, NUL, 0x6a#8]] := by decide
+
+/-! ## path_remove_prefix against an independent definition
+
+`pathRemovePrefix_spec` (above) refines the cursor loop to the list recursion
+`removePrefixRef`, which has the shape of the loop.  Independent definition
+(Spec3.lean): `nodes p` — the first piece of the path as it stands (empty for
+an absolute path), then the real components of the rest — and `lcpLen`, the
+length of the longest common prefix of two lists.  -/
+
+/-- `path_iterate` walks the nodes: the first piece is `nodes p`'s head, the
+path `iterRef p` it returns (`pathIterate_spec`) has the remaining nodes -/
+theorem nodes_walk (p : Str) (hp : p ≠ []) : nodes p = headComp p :: nodes (iterRef p) :=
+  nodes_iterRef p hp
+
+example : ([0x61#8] : Str) ≠ [] := by decide
+
+/-- `path_remove_prefix(path, prefix)` for all NUL-terminated inputs: never
+NULL, no fault, the result is a suffix of `path`, and its nodes are the nodes
+of `path` without the longest common prefix of the two node lists
+(not only when `prefix` matches entirely: `/a/b` minus `/a/c` is `b`) -/
+theorem pathRemovePrefix_nodes (p jp q jq : Str) (hp : NUL ∉ p) (hq : NUL ∉ q) :
+    ∃ r, pathRemovePrefix (p ++ NUL :: jp) (q ++ NUL :: jq) = some (r ++ NUL :: jp)
+      ∧ r <:+ p ∧ nodes r = (nodes p).drop (lcpLen (nodes p) (nodes q)) :=
+  ⟨removePrefixSpec p q, pathRemovePrefix_spec p jp q jq hp hq, removePrefixSpec_suffix p q,
+    removePrefixRef_nodes _ p q (by omega)⟩
+
+example : NUL ∉ ([SLASH, 0x61#8] : Str) := by decide
+
+/-- nodes vs. components: they are the same list up to the first piece —
+`comps` is `nodes` without the non-real pieces (the empty root, a leading dot) -/
+theorem comps_eq_nodes_filter (p : Str) : comps p = (nodes p).filter isReal := comps_eq_filter_nodes p
+
+/-
+  FULL STATEMENT in terms of `comps`, the component list `path_next` enumerates
+  (false on the tree, see `pathRemovePrefix_dot_witness`):
+     comps (result) = (comps path).drop (lcpLen (comps path) (comps prefix))
+  Proved part: neither path begins with a single-dot piece, and both are
+  absolute or both relative.  Recorded finding: C19-path-remove-prefix-leading-dot.
+-/
+theorem pathRemovePrefix_comps_partial (p jp q jq : Str) (hp : NUL ∉ p) (hq : NUL ∉ q)
+    (hdp : headComp p ≠ [DOT]) (hdq : headComp q ≠ [DOT])
+    (hk : p.head? = some SLASH ↔ q.head? = some SLASH) :
+    ∃ r, pathRemovePrefix (p ++ NUL :: jp) (q ++ NUL :: jq) = some (r ++ NUL :: jp)
+      ∧ r <:+ p ∧ comps r = (comps p).drop (lcpLen (comps p) (comps q)) :=
+  ⟨removePrefixSpec p q, pathRemovePrefix_spec p jp q jq hp hq, removePrefixSpec_suffix p q,
+    removePrefix_comps_partial p q hdp hdq hk⟩
+
+-- the hypotheses are satisfiable: "/a/b" and "/a"
+example : headComp [SLASH, 0x61#8, SLASH, 0x62#8] ≠ [DOT] ∧ headComp [SLASH, 0x61#8] ≠ [DOT]
+    ∧ (([SLASH, 0x61#8, SLASH, 0x62#8] : Str).head? = some SLASH ↔ ([SLASH, 0x61#8] : Str).head? = some SLASH) := by
+  decide
+
+/-- "./a/b" minus "a": both paths have the first component `a`, `path_next`
+on "./a/b" points at `a`, but `path_remove_prefix` counts the leading dot as a
+node and returns the path unchanged (the `comps` reading gives `b`) -/
+theorem pathRemovePrefix_dot_witness :
+    pathRemovePrefix [DOT, SLASH, 0x61#8, SLASH, 0x62#8, NUL] [0x61#8, NUL]
+      = some [DOT, SLASH, 0x61#8, SLASH, 0x62#8, NUL]
+    ∧ comps [DOT, SLASH, 0x61#8, SLASH, 0x62#8] = [[0x61#8], [0x62#8]]
+    ∧ comps [0x61#8] = [[0x61#8]]
+    ∧ (comps [DOT, SLASH, 0x61#8, SLASH, 0x62#8]).drop
+        (lcpLen (comps [DOT, SLASH, 0x61#8, SLASH, 0x62#8]) (comps [0x61#8])) = [[0x62#8]] := by decide
 
 end Igris.C19
